@@ -219,14 +219,9 @@ def run_suite(suite, seed, tier, count, extra_cases=None, timeout=1500, profile=
                      {"VERIF_STDOUT": base + ".out", "VERIF_STDERR": base + ".err"}, base + ".out", base + ".err"))
     rcs = run_parallel(cmds, timeout)
     if any(rc != 0 for rc in rcs):
-        errs = []
-        for (p, _), rc in zip(shards, rcs):
-            if rc != 0:
-                try:
-                    errs.append(open(p[: -len(".cases")] + ".err").read()[-1500:])
-                except OSError:
-                    pass
-        raise MachineryError(f"harness run of suite {suite} failed: rcs={rcs}\n" + "\n".join(errs))
+        # a harness process that dies (abort, stack overflow, kill) is an observation about the implementation,
+        # not a machinery error: its unfinished cases read "<missing>" and show up as disagreements
+        log(f"harness processes of suite {suite} ended abnormally: rcs={rcs}")
     drv = os.path.join(BUILD, "ocaml", "driver")
     cmds = []
     for p, _ in shards:
